@@ -1,5 +1,6 @@
 import Gleece.Properties.C08
 import Gleece.Properties.Conv
+import Gleece.Properties.Link
 #print axioms Gleece.Doc.check_sound
 #print axioms Gleece.Doc.model_path_params
 #print axioms Gleece.Order.validate_before_marshal_30
@@ -9,3 +10,10 @@ import Gleece.Properties.Conv
 #print axioms Gleece.Conv.enum30_typed
 #print axioms Gleece.Conv.enum31_string_typed
 #print axioms Gleece.Conv.members30_typed
+#print axioms Gleece.Link.binding_rows
+#print axioms Gleece.Link.findFirst_of_mem
+#print axioms Gleece.Link.path_annotation_reduced
+#print axioms Gleece.Link.reduced_path_has_annotation
+#print axioms Gleece.Link.reduceRoute_names
+#print axioms Gleece.Link.reduced_path_required
+#print axioms Gleece.Link.accepted_route_path_params_partial
